@@ -91,7 +91,7 @@ def case_twigs(ctx, case, be=None):
     else:
         model = ctx.ask(f'p.twigs {size} {rounds} {mk} | {wire}')
     ctx.count('twigs', f"rec={rec} mask={'y' if mask is not None else 'n'}")
-    ctx.corr(G.topo_neuron(y), model, f'prune_twigs(size={size}, recursive={rec}, mask={"yes" if mask is not None else "no"}) vs definition [{be}]',
+    ctx.defn(G.topo_neuron(y), model, f'prune_twigs(size={size}, recursive={rec}, mask={"yes" if mask is not None else "no"}) vs definition [{be}]',
              case, signature=twig_signature(pm0, mask, be))
     kept_untouched(ctx, x, y, case, 'prune_twigs', be)
 
@@ -173,7 +173,7 @@ def case_strahler(ctx, case, be=None):
     model = ctx.ask(f'p.bystrahler {sel_wire(sel)} | {wire}')
     ctx.count('strahler_sel', sel[0])
     sig = 'strahler/python-sweep/branching-root' if be in ('igraph', 'networkx') else None
-    ctx.corr(impl, model, f'prune_by_strahler({sel}) vs definition [{be}]', case, signature=sig)
+    ctx.defn(impl, model, f'prune_by_strahler({sel}) vs definition [{be}]', case, signature=sig)
     if impl not in ('ERR', ''):
         kept_untouched(ctx, x, y, case, 'prune_by_strahler', be)
         if x.has_connectors:
@@ -189,7 +189,7 @@ def case_strahler(ctx, case, be=None):
                 got = [str(int(v)) for v in y.connectors.node_id.tolist()] if y.has_connectors else []
                 want = [w for w in want if w != 'none']   # connectors without a surviving ancestor are dropped
                 if True:
-                    ctx.corr(got, want, f'prune_by_strahler(relocate_connectors): connectors must move to the nearest surviving ancestor [{be}]', case)
+                    ctx.defn(got, want, f'prune_by_strahler(relocate_connectors): connectors must move to the nearest surviving ancestor [{be}]', case)
 
 
 def case_depth(ctx, case, be=None):
@@ -204,7 +204,7 @@ def case_depth(ctx, case, be=None):
         return
     s = src if src is not None else int(x.root[0])
     model = ctx.ask(f'p.depth {s} {depth} 1 | {wire}')
-    ctx.corr(G.topo_neuron(y), model, f'prune_at_depth(depth={depth}, source={src}) vs "nodes within geodesic distance" [{be}]', case)
+    ctx.defn(G.topo_neuron(y), model, f'prune_at_depth(depth={depth}, source={src}) vs "nodes within geodesic distance" [{be}]', case)
     kept_untouched(ctx, x, y, case, 'prune_at_depth', be)
 
 
@@ -236,7 +236,7 @@ def case_longest(ctx, case, be=None):
     if len(set(leaf_depths)) == len(leaf_depths) and len(set(multi)) == len(multi) and lens.count(0) <= 1:
         model = ctx.ask(f'p.longest {lo} {hi} {int(inv)} | {wire}')
         impl = G.topo_neuron(y) if len(y.nodes) else ''
-        ctx.corr(impl, model, f'longest_neurite(n={n}, inverse={inv}) vs greedy n longest root-to-tip paths [{be}]', case)
+        ctx.defn(impl, model, f'longest_neurite(n={n}, inverse={inv}) vs greedy n longest root-to-tip paths [{be}]', case)
         ctx.count('longest_unique', 1)
     else:
         ctx.count('longest_ties', 1)
